@@ -154,8 +154,6 @@ Definition p_spawnerr (p : proc) (x : bool) : proc := mkProc (pid p) (killing p)
 Definition p_admin (p : proc) (x : bool) : proc := mkProc (pid p) (killing p) (delay p) (backoff p) (laststart p) (laststop p) (exitstatus p) (spawnerr p) (x) (system_stop p).
 Definition p_system (p : proc) (x : bool) : proc := mkProc (pid p) (killing p) (delay p) (backoff p) (laststart p) (laststop p) (exitstatus p) (spawnerr p) (admin_stop p) (x).
 
-Definition modp (i : nat) (f : proc -> proc) : M unit := p <- getp i ;; setp i (f p).
-
 (* ---- Subprocess.change_state (process.py:162-177) *)
 Definition extra_value (s : pstate) (p : proc) : Z :=
   match s with
@@ -179,6 +177,12 @@ Definition change_state (i : nat) (new : pstate) (expected : bool) : M unit :=
 
 Definition assert_in (i : nat) (site : Z) (ok : pstate -> bool) : M unit :=
   s <- gets i ;; if ok s then ret tt else crash site.
+
+Definition modp (i : nat) (f : proc -> proc) : M unit := p <- getp i ;; setp i (f p).
+
+(* the recurring shape `self._assertInState(...); [self.x = ...;] self.change_state(new)` *)
+Definition move (i : nat) (site : Z) (ok : pstate -> bool) (f : proc -> proc) (new : pstate) (expected : bool) : M unit :=
+  assert_in i site ok ;;; modp i f ;;; change_state i new expected.
 
 (* ---- kernel *)
 Definition pop {A} (l : list A) (d : A) : A * list A :=
@@ -205,6 +209,11 @@ Definition k_kill (target sig : Z) : M Z :=
     else if existsb (fun z => fst z =? p) (zombies w) then emit (EKill target sig 0) ;;; ret 0
     else emit (EKill target sig 1) ;;; ret 1.
 
+(* os.kill and the `except: ... change_state(UNKNOWN)` clause shared by kill() and signal() *)
+Definition kill_mark (i : nat) (target sig : Z) : M Z :=
+  r <- k_kill target sig ;;
+  if r =? 2 then change_state i UNKNOWN true ;;; ret r else ret r.
+
 (* ---- Subprocess.spawn (process.py:191-273) *)
 Definition spawn (i : nat) : M unit :=
   p <- getp i ;;
@@ -213,14 +222,13 @@ Definition spawn (i : nat) : M unit :=
     w <- getw ;;
     let p1 := p_laststart (p_admin (p_system (p_exitstatus (p_spawnerr (p_killing p false) false) None) false) false) (now w) in
     setp i p1 ;;;
-    assert_in i 1 (fun s => match s with EXITED | FATAL | BACKOFF | STOPPED => true | _ => false end) ;;;
-    change_state i STARTING true ;;;
+    move i 1 (fun s => match s with EXITED | FATAL | BACKOFF | STOPPED => true | _ => false end)
+         (fun p => p) STARTING true ;;;
     match c_cmd (cf i) with
     | CmdNotFound | CmdNotExec =>
       modp i (fun p => p_spawnerr p true) ;;;
       emit (ESpawnFail i 1) ;;;
-      assert_in i 2 (fun s => pstate_eqb s STARTING) ;;;
-      change_state i BACKOFF true
+      move i 2 (fun s => pstate_eqb s STARTING) (fun p => p) BACKOFF true
     | CmdOk =>
       w <- getw ;;
       let '(o, fq) := pop (forkq w) 0 in
@@ -228,13 +236,11 @@ Definition spawn (i : nat) : M unit :=
       if (o =? 1) || (o =? 2) then
         modp i (fun p => p_spawnerr p true) ;;;
         emit (ESpawnFail i 2) ;;;
-        assert_in i 3 (fun s => pstate_eqb s STARTING) ;;;
-        change_state i BACKOFF true
+        move i 3 (fun s => pstate_eqb s STARTING) (fun p => p) BACKOFF true
       else if (o =? 3) || (o =? 4) then
         modp i (fun p => p_spawnerr p true) ;;;
         emit (ESpawnFail i 3) ;;;
-        assert_in i 4 (fun s => pstate_eqb s STARTING) ;;;
-        change_state i BACKOFF true
+        move i 4 (fun s => pstate_eqb s STARTING) (fun p => p) BACKOFF true
       else
         w <- getw ;;
         let newpid := nextpid w in
@@ -272,25 +278,25 @@ Definition rollback_adjust (i : nat) (t : Z) : M unit :=
 (* ---- Subprocess.give_up (397-402) *)
 Definition give_up (i : nat) : M unit :=
   modp i (fun p => p_system (p_backoff (p_delay p 0) 0) true) ;;;
-  assert_in i 5 (fun s => pstate_eqb s BACKOFF) ;;;
-  change_state i FATAL true.
+  move i 5 (fun s => pstate_eqb s BACKOFF) (fun p => p) FATAL true.
 
 (* ---- Subprocess.kill (404-487); returns true when an error message is returned *)
 Definition kill (i : nat) (sig : Z) : M bool :=
   w <- getw ;;
   p <- getp i ;;
   s <- gets i ;;
-  if pstate_eqb s BACKOFF then change_state i STOPPED true ;;; ret false
+  if pstate_eqb s BACKOFF then
+    (* `if self.state == BACKOFF: change_state(STOPPED)`: the guard plays the role of the assertion *)
+    move i 0 (fun s => pstate_eqb s BACKOFF) (fun p => p) STOPPED true ;;; ret false
   else if pid p =? 0 then ret true
   else
     let asgroup := if pstate_eqb s STOPPING then c_killasgroup (cf i) else c_stopasgroup (cf i) in
     setp i (p_delay (p_killing p true) (now w + c_stopwaitsecs (cf i) * U)) ;;;
-    assert_in i 6 (fun s => match s with RUNNING | STARTING | STOPPING => true | _ => false end) ;;;
-    change_state i STOPPING true ;;;
+    move i 6 (fun s => match s with RUNNING | STARTING | STOPPING => true | _ => false end)
+         (fun p => p) STOPPING true ;;;
     let target := if asgroup then - pid p else pid p in
-    r <- k_kill target sig ;;
+    r <- kill_mark i target sig ;;
     if r =? 2 then
-      change_state i UNKNOWN true ;;;
       modp i (fun p => p_delay (p_killing p false) 0) ;;;
       ret true
     else ret false.
@@ -305,9 +311,8 @@ Definition signal (i : nat) (sig : Z) : M bool :=
   if pid p =? 0 then ret true
   else
     assert_in i 7 (fun s => match s with RUNNING | STARTING | STOPPING => true | _ => false end) ;;;
-    r <- k_kill (pid p) sig ;;
-    if r =? 2 then change_state i UNKNOWN true ;;; ret true
-    else ret false.
+    r <- kill_mark i (pid p) sig ;;
+    if r =? 2 then ret true else ret false.
 
 (* decode_wait_status: our kernel produces exit code c as c*256 and death by signal s as s (0 < s < 128) *)
 Definition decode_es (sts : Z) : Z :=
@@ -327,18 +332,16 @@ Definition finish (i : nat) (sts : Z) : M unit :=
      setp i (p_exitstatus (p_delay (p_killing p false) 0) (Some es))
    else if killing p then
      setp i (p_exitstatus (p_delay (p_killing p false) 0) (Some es)) ;;;
-     assert_in i 8 (fun s => pstate_eqb s STOPPING) ;;;
-     change_state i STOPPED true
+     move i 8 (fun s => pstate_eqb s STOPPING) (fun p => p) STOPPED true
    else if too_quickly then
      setp i (p_spawnerr (p_exitstatus p None) true) ;;;
-     assert_in i 9 (fun s => pstate_eqb s STARTING) ;;;
-     change_state i BACKOFF true
+     move i 9 (fun s => pstate_eqb s STARTING) (fun p => p) BACKOFF true
    else
      setp i (p_exitstatus (p_backoff (p_delay p 0) 0) (Some es)) ;;;
-     (if pstate_eqb s STARTING then change_state i RUNNING true else ret tt) ;;;
-     assert_in i 10 (fun s => pstate_eqb s RUNNING) ;;;
-     (if exit_expected then change_state i EXITED true
-      else modp i (fun p => p_spawnerr p true) ;;; change_state i EXITED false)) ;;;
+     (* `if self.state == STARTING: change_state(RUNNING)`: guard = assertion *)
+     (if pstate_eqb s STARTING then move i 0 (fun s => pstate_eqb s STARTING) (fun p => p) RUNNING true else ret tt) ;;;
+     (if exit_expected then move i 10 (fun s => pstate_eqb s RUNNING) (fun p => p) EXITED true
+      else move i 10 (fun s => pstate_eqb s RUNNING) (fun p => p_spawnerr p true) EXITED false)) ;;;
   modp i (fun p => p_pid p 0).
 
 (* ---- Subprocess.transition (656-718) *)
@@ -373,8 +376,7 @@ Definition transition (i : nat) : M unit :=
      p <- getp i ;;
      if now w - laststart p >? c_startsecs c * U then
        setp i (p_backoff (p_delay p 0) 0) ;;;
-       assert_in i 11 (fun s => pstate_eqb s STARTING) ;;;
-       change_state i RUNNING true
+       move i 11 (fun s => pstate_eqb s STARTING) (fun p => p) RUNNING true
      else ret tt
    else ret tt) ;;;
   (if pstate_eqb state BACKOFF then
@@ -731,7 +733,7 @@ Definition phase2 : M unit :=
   if mood w <? 1 then
     match rev (stop_groups w) with
     | [] => ret tt
-    | g :: r => if unstopped g w then ret tt else modw (set_stopping (stopping w) (rev r))
+    | g :: r => if unstopped g w then ret tt else modw (fun w1 => set_stopping (stopping w1) (rev r) w1)
     end
   else ret tt.
 
